@@ -50,7 +50,17 @@ def bound(s):
     return "(%s %s)" % ({"i": "BIncluded", "x": "BExcluded"}[s[0]], n(s[1:]))
 def lst(items): return "[" + "; ".join(items) + "]"
 def pat_ro(s): return lst([] if s == "-" else [b(c == "F") for c in s])
-def pat(s): return lst([] if s == "-" else ["(%s, %s)" % (b(it[0] == "F"), sink(it[1:])) for it in s.split(",")])
+def pat(s):
+    if s == "-": return lst([])
+    items = []
+    for it in s.split(","):
+        front, rest = b(it[0] == "F"), it[1:]
+        m = re.match(r"^(\d+)~(.*)$", rest)
+        if m:       # nth(k): k items passed over (KSkip), then an ordinary call
+            items += ["(%s, KSkip)" % front] * int(m.group(1))
+            rest = m.group(2)
+        items.append("(%s, %s)" % (front, sink(rest)))
+    return lst(items)
 def pat_nth(s): return lst([] if s == "-" else ["(%s, %s)" % (b(it[0] == "F"), n(it[1:])) for it in s.split(",")])
 def fin(s): return {"drop": "FinDrop", "forget": "FinForget"}[s]
 def ik(s): return {"ref": "IRef", "mut": "IMut", "tref": "ITypedRef", "tmut": "ITypedMut"}[s]
@@ -78,7 +88,7 @@ def op(t):
     if h == "drain": return "ODrain %s %s %s %s %s %s" % (api(t[1]), nat(t[2]), bound(t[3]), bound(t[4]), pat(t[5]), fin(t[6]))
     if h == "splice":
         return "OSplice %s %s %s %s %s %s %s %s %s %s" % (api(t[1]), nat(t[2]), bound(t[3]), bound(t[4]), pat(t[5]), fin(t[6]),
-                                                         rk(t[7]), n(t[8]), "None" if t[9] == "-" else "(Some %s)" % n(t[9]), n(t[10]))
+                                                         rk(t[7]), n(t[8]), "None" if t[9] == "-" else "(Some %s)" % n(t[9]), n(t[10].split("/")[0]))
     if h == "clone": return "OClone %s %s" % (nat(t[1]), nat(t[2]))
     if h == "clone_empty": return "OCloneEmpty %s %s" % (nat(t[1]), nat(t[2]))
     if h == "clone_empty_in": return "OCloneEmptyIn %s %s %s" % (nat(t[1]), nat(t[2]), bk(t[3]))
